@@ -951,3 +951,9 @@ package transport
 // the hidden-mode initial transcript: protocol name absorbed into an empty duplex, then re-keyed under that name
 //@ macro hidName() = bytes("hop_pqIK_cyclist_keccak_C512")
 //@ macro hidInitTr() = rekeyTr(trAbsorb(trEmpty(), hidName()), hidName())
+
+// (C10) The receive goroutine of Serve ends only because the server stopped serving: the last thing it did was load a
+// state other than serverStateServing (1).  No error that a datagram can provoke in readPacket ends the loop.
+//@ func (s *Server) Serve$1()
+//@   property C10 C03
+//@   ensures called(atomic.Uint32.Load) && resultof(atomic.Uint32.Load, result) != 1
